@@ -103,9 +103,18 @@ Definition same_as_model (c : sdcase) : bool :=
 
 Definition valid (c : sdcase) : bool := true.
 
+(* informational (sub-check 90, never a failure): do the whole-run theorems about the scheduler model speak about this
+   run? They quantify over every label list the model accepts; the contract / conservation / order theorems additionally
+   assume pairwise distinct feature ids and scenario ids among the features handed over. *)
+Fixpoint nodupN (l : list N) : bool :=
+  match l with [] => true | x :: t => negb (existsb (N.eqb x) t) && nodupN t end.
+Definition theorem_applies (c : sdcase) : bool :=
+  let fs := firstn (n_feats (sd_history c)) (feature_items (sd_items c)) in
+  is_some (replay c) && nodupN (map sf_id fs) && nodupN (flat_map (fun f => map ss_id (sf_scens f)) fs).
+
 Definition verdict_with (mon : sdcase -> bool) (id : N) (c : sdcase) : list (list N) :=
   if sd_hang c then [vrow id 1 (1, 0)]        (* a poll of the event stream that never returned *)
-  else [vrow id 1 (judge (mon c) (same_as_model c) 0)].
+  else [vrow id 1 (judge (mon c) (same_as_model c) 0); [id; 90; 0; if theorem_applies c then 1 else 0]].
 
 Definition mon03 c := c03_ok (sd_items c) (sd_history c) (sd_terminated c).
 Definition mon04 c := c04_ok (effective_ff c) (sd_items c) (sd_history c) (sd_terminated c)
